@@ -5,7 +5,7 @@ import re as _re
 from lib.coqterm import cbytes, cbool, cN, clist, copt, hx, unhx
 
 ID = "C19"
-QUICK_N = 2400
+QUICK_N = 2000
 THOROUGH_N = 40000
 SHARD = 200
 RULE = ("35% hdr: byte strings for NextLayer._get_host_header built from an HTTP token dictionary (request lines, Host field "
@@ -801,7 +801,12 @@ def oracle(case, obs):
             exp = _expected(c, names)
             if d != exp:
                 rh = ref_host(dc)
-                fam = _hh_family(dc, rh[1][1]) if rh is not None and rh[1] is not None else "rule-not-honoured"
+                fam = "rule-not-honoured"
+                if rh is not None and rh[1] is not None and isinstance(obs["names"], list):
+                    hv = rh[1][0]
+                    seen = [unhx(x) for x in obs["names"]]
+                    if not any(x == hv or x.startswith(hv + b":") for x in seen):
+                        fam = _hh_family(dc, rh[1][1])     # the Host header was not recognised at all
                 v.append({"key": "rule-not-honoured" if fam == "host-header-missed" else fam,
                           "what": f"destination names {names} with ignore={c['ignore']} allow={c['allow']}: expected ignore={exp}, got {d}"})
         # segmentation: a decision reached on a prefix must be the decision on the whole first flight
